@@ -212,6 +212,55 @@ pub fn build_cases(thorough: bool) -> Vec<Case> {
             }
         }
     }
+    // (4) deviation 3 over boundary pairs: every triple of option dimensions, two off-base values
+    // each, on the shapes that exercise the most machinery (auxiliary segment, several composition
+    // columns, exemptions, periodic columns, long sequences) — interactions of three features
+    {
+        type Setter = fn(&mut Cfg, usize);
+        let dims3: Vec<(&str, Setter)> = vec![
+            ("extension", |c, k| c.ext = [2, 3][k]),
+            ("partitions", |c, k| {
+                let v = [(4usize, 4usize), (2, 8)][k];
+                c.parts = v.0;
+                c.rate = v.1;
+            }),
+            ("batching", |c, k| {
+                let v = [(1u8, 2u8), (2, 1)][k];
+                c.bc = v.0;
+                c.bd = v.1;
+            }),
+            ("folding", |c, k| c.folding = [2, 16][k]),
+            ("blowup", |c, k| c.blowup = [16, 32][k]),
+            ("remainder", |c, k| c.rem = [0, 63][k]),
+            ("queries", |c, k| c.queries = [1, 60][k]),
+        ];
+        let shapes3 = ["aux2x2+reset+exempt2", "deg8+mulper", "mixed-assertions", "seq/n128/f1/s2", "wide9"];
+        let hashers3: Vec<(Fid, Hid)> = if thorough {
+            vec![(Fid::F64, Hid::Blake3_256), (Fid::F64, Hid::Rp64_256), (Fid::F128, Hid::Sha3_256), (Fid::F62, Hid::Rp62_248), (Fid::F64, Hid::RpJive64_256), (Fid::F128, Hid::Blake3_192)]
+        } else {
+            vec![(Fid::F64, Hid::Blake3_256), (Fid::F128, Hid::Sha3_256)]
+        };
+        for (f, h) in hashers3 {
+            let b = Cfg::base(f, h);
+            for i in 0..dims3.len() {
+                for j in i + 1..dims3.len() {
+                    for k in j + 1..dims3.len() {
+                        for m in 0..8usize {
+                            let mut c = b.clone();
+                            (dims3[i].1)(&mut c, m & 1);
+                            (dims3[j].1)(&mut c, m >> 1 & 1);
+                            (dims3[k].1)(&mut c, m >> 2 & 1);
+                            for sn in shapes3 {
+                                if let Some(s) = cat.iter().find(|s| s.name == sn) {
+                                    cases.push(Case { shape: s.clone(), cfg: c.clone(), part: "deviation 3 (boundary pairs)" });
+                                }
+                            }
+                        }
+                    }
+                }
+            }
+        }
+    }
     cases
 }
 
